@@ -8,6 +8,7 @@ import (
 	"errors"
 	"fmt"
 	"math/big"
+	"strconv"
 	"strings"
 	"sync/atomic"
 
@@ -834,14 +835,31 @@ func c04errorsCase(c *vf.Ctx, i int) {
 	default:
 		n = 65 + c.R.SkewLen(4000)
 	}
-	seed := c.R.Bytes(n)
+	if strconv.IntSize == 32 && (i == 100 || i == 101) {
+		// 32-bit build only: a length whose BIT count wraps around 2^32 back into
+		// the legal range (2^29 + 16..64 bytes, half a gigabyte of seed)
+		n = 1<<29 + 16 + 48*(i-100)
+		c.Inc("illegal_seed_len_2^29_plus_legal(32-bit_build)")
+	}
+	var seed []byte
+	if n >= 1<<20 {
+		seed = make([]byte, n) // contents are irrelevant for a length refusal; keep it cheap
+		c.R.Fill(seed[:64])
+	} else {
+		seed = c.R.Bytes(n)
+	}
 	if i == 0 {
 		seed = nil
 	}
 	c.Inc(fmt.Sprintf("illegal_seed_len_%s", map[bool]string{true: "short", false: "long"}[n < 16]))
 	c.Nontrivial(vf.Mix(0xe0, uint64(n), vf.HashBytes(seed)))
 	for _, net := range c04netList {
-		in := func() string { return fmt.Sprintf("seed=%x (%d bytes) net=%s", seed, n, net.Name) }
+		in := func() string {
+			if len(seed) > 4096 {
+				return fmt.Sprintf("seed=%x... (%d bytes) net=%s", seed[:64], n, net.Name)
+			}
+			return fmt.Sprintf("seed=%x (%d bytes) net=%s", seed, n, net.Name)
+		}
 		var k *hdkeychain.ExtendedKey
 		var err error
 		if !c.Call("NewMaster", in, func() { k, err = hdkeychain.NewMaster(seed, net.P) }) {
